@@ -1669,11 +1669,12 @@ class C20:
         if run % 150 == 11:
             return gen_collide_case(ctx, run, "C20")
         rc = rng_for(ctx.seed, "C20", run, "cfg")
-        cfg = swarm_config(rc, ctx.tier, weights_over={"load": 3, "refresh": 1})
+        cfg = swarm_config(rc, ctx.tier, weights_over={"load": 3, "refresh": 1, "copyfrom": 3})
         cfg["g_restricted"] = rc.random() < 0.8
         cfg["npkeys"] = rc.random() < 0.4
         if cfg["npkeys"]:
             cfg["weights"]["load"] = 0
+            cfg["weights"]["copyfrom"] = 0
         spec = gen_spec(rng_for(ctx.seed, "C20", run, "spec"), cfg)
         hg = HistoryGen(rng_for(ctx.seed, "C20", run, "ops"), cfg, spec)
         ops = hg.history()
